@@ -374,22 +374,20 @@ Section Facts.
   Proof.
     unfold Container.setitem. destruct k as [name|name l|name a b st| |]; try apply gs_refl.
     - destruct (negb (mem name (index s))); [apply gs_refl | apply setattr_good].
-    - destruct (locate (span s) l) as [p|e]; [|apply gs_refl].
-      destruct (assoc name (vars s)) as [v|] eqn:A.
-      + destruct (assign_item v p value) as [v' e] eqn:AI. simpl.
-        destruct (assign_item_meta _ _ _ _ _ AI) as [D S'].
-        eapply gs_var; [exact A|exact D|]. intros Hn. rewrite S'. exact Hn.
-      + destruct (hidden_lookup name s); try apply gs_refl.
-        destruct (Nat.ltb p (length (registry s))); [|apply gs_refl].
-        simpl. apply gs_meta; reflexivity.
-    - destruct (resolve_slice (span s) a b st) as [[[sl el] stp]|e]; [|apply gs_refl].
-      destruct (assoc name (vars s)) as [v|] eqn:A.
-      + destruct (vshape v) as [|m [|m' r]] eqn:SH; try apply gs_refl.
-        destruct (slice_positions m sl el stp) as [ps|]; [|apply gs_refl].
-        destruct (assign_inplace v ps value) as [v' e] eqn:AI. simpl.
-        destruct (assign_inplace_meta _ _ _ _ _ AI) as [D S'].
-        eapply gs_var; [exact A|exact D|]. intros Hn. rewrite S'. exact Hn.
-      + destruct (hidden_lookup name s); apply gs_refl.
+    - destruct (negb (mem name (index s))); [apply gs_refl|].
+      destruct (locate (span s) l) as [p|e]; [|apply gs_refl].
+      destruct (assoc name (vars s)) as [v|] eqn:A; [|apply gs_refl].
+      destruct (assign_item v p value) as [v' e] eqn:AI. simpl.
+      destruct (assign_item_meta _ _ _ _ _ AI) as [D S'].
+      eapply gs_var; [exact A|exact D|]. intros Hn. rewrite S'. exact Hn.
+    - destruct (negb (mem name (index s))); [apply gs_refl|].
+      destruct (resolve_slice (span s) a b st) as [[[sl el] stp]|e]; [|apply gs_refl].
+      destruct (assoc name (vars s)) as [v|] eqn:A; [|apply gs_refl].
+      destruct (vshape v) as [|m [|m' r]] eqn:SH; try apply gs_refl.
+      destruct (slice_positions m sl el stp) as [ps|]; [|apply gs_refl].
+      destruct (assign_inplace v ps value) as [v' e] eqn:AI. simpl.
+      destruct (assign_inplace_meta _ _ _ _ _ AI) as [D S'].
+      eapply gs_var; [exact A|exact D|]. intros Hn. rewrite S'. exact Hn.
   Qed.
 
   Lemma replace_values_good kvs s : good s (fst (replace_values kvs s)).
@@ -445,6 +443,10 @@ Section Facts.
        eapply gs_trans; [exact G|]; apply gs_names; rewrite BI; apply in_app_iff; right; left; reflexivity).
   Qed.
 
+  (* FRAME: a read-only hook leaves the object exactly as it was *)
+  Lemma read_frame q s : fst (read q s) = s.
+  Proof. destruct q; reflexivity. Qed.
+
   Lemma step_good o s : good s (fst (step o s)).
   Proof.
     destruct o; simpl.
@@ -453,6 +455,7 @@ Section Facts.
     - apply setitem_good.
     - apply replace_values_good.
     - apply add_attribute_good.
+    - rewrite read_frame. apply gs_refl.
   Qed.
 
   Lemma run_good ops s : good s (run ops s).
@@ -619,23 +622,22 @@ Section Facts.
     unfold Container.setitem. intros H. destruct k as [name|name l|name a b st| |]; try (inversion H; left; reflexivity).
     - destruct (negb (mem name (index s))) eqn:M; [inversion H; left; reflexivity|].
       apply negb_false_iff in M. rewrite (setattr_on_var _ _ _ _ M) in H. eapply setattr_var_err; eassumption.
-    - destruct (locate (span s) l) as [p|e0]; [|inversion H; left; reflexivity].
-      destruct (assoc name (vars s)) as [v|] eqn:A.
-      + destruct (assign_item v p value) as [v' eo] eqn:AI.
-        destruct eo as [ex|]; inversion H; subst.
-        apply assign_item_err in AI. subst v'. left.
-        rewrite (assoc_set_same _ _ _ A). apply set_vars_same.
-      + destruct (hidden_lookup name s); try (inversion H; left; reflexivity).
-        destruct (Nat.ltb p (length (registry s))); inversion H; left; reflexivity.
-    - destruct (resolve_slice (span s) a b st) as [[[sl el] stp]|e0]; [|inversion H; left; reflexivity].
-      destruct (assoc name (vars s)) as [v|] eqn:A.
-      + destruct (vshape v) as [|m [|m' r]]; try (inversion H; left; reflexivity).
-        destruct (slice_positions m sl el stp) as [ps|]; [|inversion H; left; reflexivity].
-        destruct (assign_inplace v ps value) as [v' eo] eqn:AI.
-        destruct eo as [ex|]; inversion H; subst.
-        apply assign_inplace_err in AI as [->|C]; [left|right; exact C].
-        rewrite (assoc_set_same _ _ _ A). apply set_vars_same.
-      + destruct (hidden_lookup name s); inversion H; left; reflexivity.
+    - destruct (negb (mem name (index s))); [inversion H; left; reflexivity|].
+      destruct (locate (span s) l) as [p|e0]; [|inversion H; left; reflexivity].
+      destruct (assoc name (vars s)) as [v|] eqn:A; [|inversion H; left; reflexivity].
+      destruct (assign_item v p value) as [v' eo] eqn:AI.
+      destruct eo as [ex|]; inversion H; subst.
+      apply assign_item_err in AI. subst v'. left.
+      rewrite (assoc_set_same _ _ _ A). apply set_vars_same.
+    - destruct (negb (mem name (index s))); [inversion H; left; reflexivity|].
+      destruct (resolve_slice (span s) a b st) as [[[sl el] stp]|e0]; [|inversion H; left; reflexivity].
+      destruct (assoc name (vars s)) as [v|] eqn:A; [|inversion H; left; reflexivity].
+      destruct (vshape v) as [|m [|m' r]]; try (inversion H; left; reflexivity).
+      destruct (slice_positions m sl el stp) as [ps|]; [|inversion H; left; reflexivity].
+      destruct (assign_inplace v ps value) as [v' eo] eqn:AI.
+      destruct eo as [ex|]; inversion H; subst.
+      apply assign_inplace_err in AI as [->|C]; [left|right; exact C].
+      rewrite (assoc_set_same _ _ _ A). apply set_vars_same.
   Qed.
 
   Lemma add_variable_err name value dt s s' e :
@@ -653,6 +655,7 @@ Section Facts.
     | AddVariable _ _ _ | SetItem _ _ => True
     | SetAttr n _ _ | AddAttribute n _ => n <> "values"
     | ReplaceValues _ => False
+    | Query _ => True
     end.
 
   (* A raising single-variable operation leaves the WHOLE state unchanged, unless the exception is one that an
@@ -661,12 +664,13 @@ Section Facts.
   Theorem failed_single_assignment_no_change o s s' e :
     single o -> step o s = (s', Raise e) -> s' = s \/ CastFail e.
   Proof.
-    destruct o as [name v dt|name v hint|k v|kvs|name v]; simpl; intros S H.
+    destruct o as [name v dt|name v hint|k v|kvs|name v|q]; simpl; intros S H.
     - left. eapply add_variable_err; eassumption.
     - eapply setattr_err; eassumption.
     - eapply setitem_err; eassumption.
     - contradiction.
     - left. eapply add_attribute_err; eassumption.
+    - inversion H.
   Qed.
 
   (* add_variable, and every rejection that is not NumPy's, is atomic for ALL operations that address one name *)
@@ -693,25 +697,11 @@ Section Facts.
     mem name (index s) = false -> setitem (KName name) value s = (s, Raise KeyError).
   Proof. intros M. unfold Container.setitem. rewrite M. reflexivity. Qed.
 
-  (* obj[name, label] = v and obj[name, a:b:s] = v with `name` not a variable: KeyError (missing label / missing
-     name) or TypeError ('strict', and a linker's 'LAGS'/'LEADS'), nothing changes — PROVIDED '_' + name is not the
-     attribute registry itself: see unknown_name_accepted_refuted for name = "attributes". *)
+  (* obj[name, label] = v and obj[name, a:b:s] = v with `name` not a variable: KeyError, whatever the label, the slice
+     and the value, and nothing changes (fix 216fc36; before it, 'attributes' / 'strict' reached the object's own bookkeeping) *)
   Theorem unknown_name_label_rejected name l value s :
-    assoc name (vars s) = None -> name <> "attributes" ->
-    (forall x, assoc (String "_" name) (adict s) <> Some x) ->
-    exists e, setitem (KLabel name l) value s = (s, Raise e) /\ (e = KeyError \/ e = TypeError).
-  Proof.
-    intros A NA NU. unfold Container.setitem. rewrite A.
-    destruct (locate (span s) l) as [p|e0] eqn:L.
-    - unfold hidden_lookup. apply String.eqb_neq in NA. rewrite NA.
-      destruct (String.eqb name "strict"); [eexists; split; [reflexivity|right; reflexivity]|].
-      match goal with |- context [if ?c then HNoItemAssign else _] => destruct c end;
-        [eexists; split; [reflexivity|right; reflexivity]|].
-      destruct (assoc (String "_" name) (adict s)) as [x|] eqn:U; [exfalso; exact (NU x eq_refl)|].
-      eexists; split; [reflexivity|left; reflexivity].
-    - unfold locate in L. destruct (find_pos l (span s)); inversion L; subst.
-      eexists; split; [reflexivity|left; reflexivity].
-  Qed.
+    mem name (index s) = false -> setitem (KLabel name l) value s = (s, Raise KeyError).
+  Proof. intros M. unfold Container.setitem. rewrite M. reflexivity. Qed.
 
   Lemma locate_err sp l e : locate sp l = Raise e -> e = KeyError.
   Proof. unfold locate. destruct (find_pos l sp); intros H; inversion H; reflexivity. Qed.
@@ -729,21 +719,8 @@ Section Facts.
   Qed.
 
   Theorem unknown_name_slice_rejected name a b st value s :
-    assoc name (vars s) = None -> name <> "attributes" ->
-    (forall x, assoc (String "_" name) (adict s) <> Some x) ->
-    exists e, setitem (KSlice name a b st) value s = (s, Raise e) /\ (e = KeyError \/ e = TypeError \/ e = IndexError).
-  Proof.
-    intros A NA NU. unfold Container.setitem. rewrite A.
-    destruct (resolve_slice (span s) a b st) as [[[sl el] stp]|e0] eqn:R.
-    - unfold hidden_lookup. apply String.eqb_neq in NA. rewrite NA.
-      destruct (String.eqb name "strict"); [eexists; split; [reflexivity|right; left; reflexivity]|].
-      match goal with |- context [if ?c then HNoItemAssign else _] => destruct c end;
-        [eexists; split; [reflexivity|right; left; reflexivity]|].
-      destruct (assoc (String "_" name) (adict s)) as [x|] eqn:U; [exfalso; exact (NU x eq_refl)|].
-      eexists; split; [reflexivity|left; reflexivity].
-    - exists e0. split; [reflexivity|].
-      apply resolve_slice_err in R. destruct R as [->| ->]; auto.
-  Qed.
+    mem name (index s) = false -> setitem (KSlice name a b st) value s = (s, Raise KeyError).
+  Proof. intros M. unfold Container.setitem. rewrite M. reflexivity. Qed.
 
   (* ================================================================ bulk operations: exactly a prefix is applied *)
   Theorem replace_values_prefix kvs s s' e :
@@ -976,6 +953,51 @@ Section Facts.
     simpl. eapply inv_init_model; [exact KN | exact E].
   Qed.
 End Facts.
+
+(* ================================================================== what the read-only hooks return *)
+Theorem completions_are_the_variables s : snd (read QCompletions s) = Ret (VNames (index s)).
+Proof. reflexivity. Qed.
+
+Theorem contains_spec n s : snd (read (QContains n) s) = Ret (VBool true) <-> In n (row_names s).
+Proof.
+  simpl. split.
+  - intros H. inversion H as [H1]. apply mem_In. exact H1.
+  - intros H. apply mem_In in H. rewrite H. reflexivity.
+Qed.
+
+Theorem dir_lists_variables_and_attributes s x :
+  (exists l, snd (read QDir s) = Ret (VNames l) /\ (In x l <-> In x (index s) \/ reg_mem x (registry s) = true)).
+Proof.
+  eexists. split; [reflexivity|]. rewrite in_app_iff. split; (intros [H|H]; [left; exact H|right]).
+  - unfold reg_names in H. apply in_map_iff in H as [[y] [<- Hy]]. unfold reg_mem. apply existsb_exists.
+    exists (RName y). split; [exact Hy|apply String.eqb_refl].
+  - unfold reg_mem in H. apply existsb_exists in H as [[y] [Hy E]]. apply String.eqb_eq in E. subst.
+    unfold reg_names. apply in_map_iff. exists (RName y). split; [reflexivity|exact Hy].
+Qed.
+
+(* obj.nbytes never raises on an object satisfying the invariant and is the sum, over the variables, of one item per period *)
+Theorem nbytes_spec s :
+  InvV s ->
+  snd (read QNbytes s) =
+  Ret (VNat (fold_right (fun x acc => match dtype_of s x with Some d => n_of s * itemsize d + acc | None => acc end) 0 (index s))).
+Proof.
+  intros [_ [HI HV]]. simpl.
+  assert (G : forall l, incl l (index s) ->
+    fold_right (fun x acc => match acc with
+                             | Raise e => Raise e
+                             | Ret a => match assoc x (vars s) with
+                                        | Some v => if mem x (index s) then Ret (prod_shape (vshape v) * itemsize (vdtype v) + a) else Raise KeyError
+                                        | None => Raise KeyError
+                                        end
+                             end) (Ret 0) l =
+    Ret (fold_right (fun x acc => match dtype_of s x with Some d => n_of s * itemsize d + acc | None => acc end) 0 l)).
+  { induction l as [|x l IH]; intros Hl; [reflexivity|].
+    simpl. rewrite IH by (intros y Hy; apply Hl; right; exact Hy).
+    assert (Hx : In x (index s)) by (apply Hl; left; reflexivity).
+    unfold dtype_of. destruct (assoc x (vars s)) as [v|] eqn:A; [|exfalso; exact (HI x Hx A)].
+    rewrite (proj2 (mem_In _ _) Hx), (HV _ _ A). unfold prod_shape. simpl. rewrite Nat.mul_1_r. reflexivity. }
+  unfold nbytes_of. rewrite (G (index s) (incl_refl _)). reflexivity.
+Qed.
 
 (* declaration order: the index (and `names`) only ever grow at the END - nothing is removed, nothing reordered *)
 Lemma good_prefix s s' : good s s' -> (exists l, index s' = index s ++ l) /\ (exists l, names s' = names s ++ l).
@@ -1338,37 +1360,33 @@ Section NoOther.
        destruct (base_add_variable name value (match dt with None => dflt s | Some _ => dt end) s) as [s' [u|e]]; simpl in *; [discriminate|exact B]).
   Qed.
 
-  (* the only operation that can leave the model: an item assignment addressed at a name that is no variable *)
-  Theorem other_error_only_for_hidden_names o s :
-    Inv s -> snd (step o s) = Raise OtherError ->
-    exists name v, assoc name (vars s) = None /\
-      ((exists l, o = SetItem (KLabel name l) v) \/ (exists a b st, o = SetItem (KSlice name a b st) v)).
+  (* no operation leaves the model *)
+  Theorem no_other_error o s : Inv s -> snd (step o s) <> Raise OtherError.
   Proof.
-    intros I H. destruct o as [name v dt|name v hint|k v|kvs|name v]; simpl in H.
-    - exfalso. exact (add_variable_no_other name v dt s H).
-    - exfalso. exact (setattr_no_other name v hint s I H).
+    intros I H. destruct o as [name v dt|name v hint|k v|kvs|name v|q]; simpl in H.
+    - exact (add_variable_no_other name v dt s H).
+    - exact (setattr_no_other name v hint s I H).
     - destruct k as [name|name l|name a b st| |]; try (simpl in H; discriminate H).
-      + exfalso. unfold Container.setitem in H. destruct (negb (mem name (index s))); [discriminate H|].
+      + unfold Container.setitem in H. destruct (negb (mem name (index s))); [discriminate H|].
         exact (setattr_no_other name v None s I H).
-      + unfold Container.setitem in H.
-        destruct (locate (span s) l) as [p|e] eqn:L; [|exfalso; simpl in H; inversion H; subst; apply locate_err in L; discriminate L].
-        destruct (assoc name (vars s)) as [x|] eqn:A.
-        * exfalso. pose proof (assign_item_no_other x p v) as AI.
-          destruct (Container.assign_item pycast arrcast itemseq_exn x p v) as [x' [e|]]; simpl in *; [|discriminate H].
-          inversion H; subst. apply AI. reflexivity.
-        * exists name, v. split; [exact A|]. left. exists l. reflexivity.
-      + unfold Container.setitem in H.
+      + unfold Container.setitem in H. destruct (negb (mem name (index s))); [discriminate H|].
+        destruct (locate (span s) l) as [p|e] eqn:L; [|simpl in H; inversion H; subst; apply locate_err in L; discriminate L].
+        destruct (assoc name (vars s)) as [x|] eqn:A; [|discriminate H].
+        pose proof (assign_item_no_other x p v) as AI.
+        destruct (Container.assign_item pycast arrcast itemseq_exn x p v) as [x' [e|]]; simpl in *; [|discriminate H].
+        inversion H; subst. apply AI. reflexivity.
+      + unfold Container.setitem in H. destruct (negb (mem name (index s))); [discriminate H|].
         destruct (resolve_slice (span s) a b st) as [[[sl el] stp]|e] eqn:R;
-          [|exfalso; simpl in H; inversion H; subst; apply resolve_slice_err in R; destruct R; discriminate].
-        destruct (assoc name (vars s)) as [x|] eqn:A.
-        * exfalso. rewrite (proj2 (proj2 (proj1 I)) _ _ A) in H.
-          destruct (slice_positions (n_of s) sl el stp) as [ps|]; [|simpl in H; discriminate H].
-          pose proof (assign_inplace_no_other x ps v) as AI.
-          destruct (Container.assign_inplace pycast arrcast x ps v) as [x' [e|]]; simpl in *; [|discriminate H].
-          inversion H; subst. apply AI. reflexivity.
-        * exists name, v. split; [exact A|]. right. exists a, b, st. reflexivity.
-    - exfalso. exact (replace_values_no_other kvs s I H).
-    - exfalso. exact (add_attribute_no_other name v s I H).
+          [|simpl in H; inversion H; subst; apply resolve_slice_err in R; destruct R; discriminate].
+        destruct (assoc name (vars s)) as [x|] eqn:A; [|discriminate H].
+        rewrite (proj2 (proj2 (proj1 I)) _ _ A) in H.
+        destruct (slice_positions (n_of s) sl el stp) as [ps|]; [|simpl in H; discriminate H].
+        pose proof (assign_inplace_no_other x ps v) as AI.
+        destruct (Container.assign_inplace pycast arrcast x ps v) as [x' [e|]]; simpl in *; [|discriminate H].
+        inversion H; subst. apply AI. reflexivity.
+    - exact (replace_values_no_other kvs s I H).
+    - exact (add_attribute_no_other name v s I H).
+    - discriminate H.
   Qed.
 End NoOther.
 
@@ -1401,6 +1419,7 @@ Definition wf_key_op (o : op) : Prop :=
   match o with
   | AddVariable _ v _ | SetAttr _ v _ | SetItem _ v | AddAttribute _ v => wf_operand v
   | ReplaceValues kvs => Forall (fun kv => wf_operand (snd kv)) kvs
+  | Query _ => True
   end.
 
 Definition consistent (x : list nat * list pyval) : Prop := length (snd x) = prod_shape (fst x).
@@ -1653,21 +1672,20 @@ Section DataLength.
   Proof.
     intros W D. unfold Container.setitem. destruct k as [name|name l|name a b st| |]; try exact D.
     - destruct (negb (mem name (index s))); [exact D | apply setattr_invD; assumption].
-    - destruct (locate (span s) l) as [p|e]; [|exact D].
-      destruct (assoc name (vars s)) as [v|] eqn:A.
-      + pose proof (assign_item_length v p value) as L.
-        destruct (Container.assign_item pycast arrcast itemseq_exn v p value) as [v' e]. simpl in *.
-        apply invD_set; [exact D|]. rewrite L. apply (D name). exact A.
-      + destruct (hidden_lookup name s); try exact D.
-        destruct (Nat.ltb p (length (registry s))); exact D.
-    - destruct (resolve_slice (span s) a b st) as [[[sl el] stp]|e]; [|exact D].
-      destruct (assoc name (vars s)) as [v|] eqn:A.
-      + destruct (vshape v) as [|m [|m' r]]; try exact D.
-        destruct (slice_positions m sl el stp) as [ps|]; [|exact D].
-        pose proof (assign_inplace_length v ps value) as L.
-        destruct (Container.assign_inplace pycast arrcast v ps value) as [v' e]. simpl in *.
-        apply invD_set; [exact D|]. rewrite L. apply (D name). exact A.
-      + destruct (hidden_lookup name s); exact D.
+    - destruct (negb (mem name (index s))); [exact D|].
+      destruct (locate (span s) l) as [p|e]; [|exact D].
+      destruct (assoc name (vars s)) as [v|] eqn:A; [|exact D].
+      pose proof (assign_item_length v p value) as L.
+      destruct (Container.assign_item pycast arrcast itemseq_exn v p value) as [v' e]. simpl in *.
+      apply invD_set; [exact D|]. rewrite L. apply (D name). exact A.
+    - destruct (negb (mem name (index s))); [exact D|].
+      destruct (resolve_slice (span s) a b st) as [[[sl el] stp]|e]; [|exact D].
+      destruct (assoc name (vars s)) as [v|] eqn:A; [|exact D].
+      destruct (vshape v) as [|m [|m' r]]; try exact D.
+      destruct (slice_positions m sl el stp) as [ps|]; [|exact D].
+      pose proof (assign_inplace_length v ps value) as L.
+      destruct (Container.assign_inplace pycast arrcast v ps value) as [v' e]. simpl in *.
+      apply invD_set; [exact D|]. rewrite L. apply (D name). exact A.
   Qed.
 
   Lemma replace_values_invD kvs : Forall (fun kv => wf_operand (snd kv)) kvs -> forall s, InvD s -> InvD (fst (replace_values kvs s)).
@@ -1726,12 +1744,13 @@ Section DataLength.
 
   Theorem step_preserves_invD o s : wf_key_op o -> InvD s -> InvD (fst (step o s)).
   Proof.
-    destruct o as [name v dt|name v hint|k v|kvs|name v]; simpl; intros W D.
+    destruct o as [name v dt|name v hint|k v|kvs|name v|q]; simpl; intros W D.
     - apply add_variable_invD; assumption.
     - apply setattr_invD; assumption.
     - apply setitem_invD; assumption.
     - apply replace_values_invD; assumption.
     - apply add_attribute_invD; assumption.
+    - rewrite read_frame. exact D.
   Qed.
 
   (* through ANY history of operations with consistent ndarray operands: every series holds exactly one cell per period *)
